@@ -454,6 +454,34 @@ def text_variant_programs():
     assert text.count("size=3") == 2, text
     pr["text"] = text.replace("size=3", "size=Integer(3)")
     progs.append(pr)
+    # parameters with default values are parameters (fourteenth seeding round), and a function made by a factory has the
+    # annotations it was made with
+    PI_ = targeted.S("Public", "Int")
+    pr = targeted.prog([targeted.inp("x", "x", SI), targeted.inp("y", "y", PI_), targeted.inp("z", "z", PI_),
+                        {"k": "def", "f": "scale", "params": [("a", SI), ("k", PI_)], "ret": SI, "body": [{"k": "bin", "x": "r", "op": "OMul", "a": "a", "b": "k"}], "res": "r", "form": "decorator"},
+                        {"k": "call", "x": "r0", "f": "scale", "args": ["x", "z"], "kwargs": []}], [("o", "P0", "r0")], ["text-variant", "parameter-with-a-default-value"])
+    text = surface.to_python(pr)
+    assert "def scale(a: SecretInteger, k: PublicInteger) -> SecretInteger:" in text, text
+    pr["text"] = text.replace("def scale(a: SecretInteger, k: PublicInteger) -> SecretInteger:", "def scale(a: SecretInteger, k: PublicInteger = y) -> SecretInteger:")
+    progs.append(pr)
+    pr = targeted.prog([targeted.inp("arr", "arr", ("arr", SI, 3)), targeted.inp("x", "x", SI),
+                        {"k": "def", "f": "total", "params": [("acc", SI), ("a", SI)], "ret": SI, "body": [{"k": "bin", "x": "s", "op": "OAdd", "a": "acc", "b": "a"}], "res": "s", "form": "decorator"},
+                        {"k": "reduce", "x": "r0", "a": "arr", "f": "total", "init": "x"}], [("o", "P0", "r0")], ["text-variant", "reduced-function-with-a-default-value"])
+    text = surface.to_python(pr)
+    assert "def total(acc: SecretInteger, a: SecretInteger) -> SecretInteger:" in text, text
+    pr["text"] = text.replace("def total(acc: SecretInteger, a: SecretInteger) -> SecretInteger:", "def total(acc: SecretInteger, a: SecretInteger = x) -> SecretInteger:")
+    progs.append(pr)
+    addf = lambda t: {"k": "def", "f": "add", "params": [("acc", t), ("item", t)], "ret": t, "body": [{"k": "bin", "x": "s", "op": "OAdd", "a": "acc", "b": "item"}], "res": "s", "form": "decorator"}
+    pr = targeted.prog([targeted.inp("ss", "ss", ("arr", SI, 3)), targeted.inp("s0", "s0", SI), targeted.inp("ps", "ps", ("arr", PI_, 2)), targeted.inp("q0", "q0", PI_),
+                        addf(SI), {"k": "reduce", "x": "r1", "a": "ss", "f": "add", "init": "s0"},
+                        addf(PI_), {"k": "reduce", "x": "r2", "a": "ps", "f": "add", "init": "q0"}],
+                       [("o1", "P0", "r1"), ("o2", "P0", "r2")], ["text-variant", "functions-made-by-a-factory"])
+    pr["text"] = ("from nada_dsl import *\n\n\ndef adder(ty):\n    def add(acc: ty, item: ty) -> ty:\n        s = acc + item\n        return s\n    return add\n\n\n"
+                  "def nada_main():\n    party_P0 = Party(name='P0')\n    ss = Array(SecretInteger(Input(name='ss', party=party_P0)), size=3)\n"
+                  "    s0 = SecretInteger(Input(name='s0', party=party_P0))\n    ps = Array(PublicInteger(Input(name='ps', party=party_P0)), size=2)\n"
+                  "    q0 = PublicInteger(Input(name='q0', party=party_P0))\n    r1 = ss.reduce(adder(SecretInteger), s0)\n    r2 = ps.reduce(adder(PublicInteger), q0)\n"
+                  "    return [Output(r1, 'o1', party_P0), Output(r2, 'o2', party_P0)]\n")
+    progs.append(pr)
     # ... or as a Python bool / float / negative number: rejecting is fine; an accepted array has a plain non-negative size
     for tag, spelt, n in (("array-size-given-as-a-bool", "True", 1), ("array-size-given-as-a-float", "3.0", 3), ("array-size-negative", "-2", 0)):
         pr = targeted.prog([targeted.inp("xs", "xs", ("arr", SI, n)), targeted.inp("a", "a", SI)], [("p", "P0", "xs"), ("o", "P0", "a")], ["text-variant", tag])
